@@ -25,6 +25,7 @@ func runC12(c *eng.Ctx) {
 	ruleEmptySubscriberHeapIsDropped(c)
 	ruleJoiningConsumerEntersEachStreamOnce(c)
 	ruleRepeatedJoinIsRefused(c)
+	ruleRestoredGroupReplaysTheJoins(c)
 	c.Rule("R12.8", "K5")
 	ruleRebalanceCountsPartitionsNow(c)
 	p := c.P
